@@ -203,3 +203,6 @@ MUTANTS += [
      "        super().__init__(value=value, unit=unit)\n\n        if value < 0:\n            raise ValueError(\"Parameter 'value' must be positive.\")\n\n        self.__value = value\n        self.__unit = unit\n\n    def __add__(self, other: Time | TimeInterval) -> Time | TimeInterval:"),
     ('C19-pwm-setter-range', ['C19'], M, "        if (pwm > 1) or (pwm < -1):", "        if (pwm > 1.5) or (pwm < -1.5):"),
 ]
+MUTANTS += [
+    ('C08-current-before-driving-torque', ['C08'], S, "        self._compute_driving_torque()\n        self._compute_torque()", "        self._compute_electric_current()\n        self._compute_driving_torque()\n        self._compute_torque()"),
+]
